@@ -283,6 +283,29 @@ def _must_pass_helpers(ctx, fi) -> List[FunctionInfo]:
             continue
         if g.must_pass(g.entry, g.exit, through_nodes={n.id}):
             out.append(callee)
+            _CALL_NODE[(fi.qual, callee.qual)] = n.id
+    return out
+
+
+_CALL_NODE: Dict[Tuple[str, str], int] = {}
+
+
+def stores_before(ctx, fi, node_id: int, fields) -> List[ast.AST]:
+    """assignments to self.<field> (field in `fields`, written `self.f`) from which the node can still be reached: the
+    validated collection has been replaced before the validation looks at it"""
+    g = ctx.cfg(fi)
+    sn = fi.self_name
+    names = {f.split(".", 1)[1] for f in fields if f.startswith("self.")}
+    out = []
+    if sn is None or not names:
+        return out
+    for n in g.nodes.values():
+        a = n.ast
+        if n.kind == "stmt" and isinstance(a, ast.Assign):
+            for t in a.targets:
+                if isinstance(t, ast.Attribute) and isinstance(t.value, ast.Name) and t.value.id == sn and t.attr in names:
+                    if node_id in g.reach([n.id]) and n.id != node_id:
+                        out.append(a)
     return out
 
 
@@ -352,6 +375,13 @@ def check_guard(ctx, res, ob: GuardOb, rule="R15.1", prop_res=None, _fi=None, _d
         # the validation may live in a helper that every normal path calls (`self._check_closed_and_oriented()`)
         for callee in _must_pass_helpers(ctx, fi):
             if check_guard(ctx, res, ob, rule, prop_res, _fi=callee, _depth=_depth + 1):
+                late = stores_before(ctx, fi, _CALL_NODE.get((fi.qual, callee.qual), -1), ob.iterates or ()) if ob.loop else []
+                if late:
+                    if emit:
+                        why = "the validation in %s runs after `%s`: it only sees what that assignment kept" % (callee.short, txt(late[0])[:60])
+                        res.ob(rule, where, construct, False, why)
+                        res.violation(rule, fi, late[0], "%s -- %s" % (ob.wording, why), construct=construct + " (validated after re-assignment)")
+                    return False
                 if emit:
                     res.ob(rule, where, construct, True, "validated in %s, which every normal path of %s calls" % (callee.short, fi.short))
                 return True
@@ -376,6 +406,12 @@ def check_guard(ctx, res, ob: GuardOb, rule="R15.1", prop_res=None, _fi=None, _d
                 cut.add((nid, y, l))
     if ob.loop:
         ok, why = _loop_guard(ctx, fi, g, good, cut, ob)
+        if ok and ob.iterates:
+            for nid_, _, _ in good:
+                for hdr in g.nodes[nid_].loops:
+                    late = stores_before(ctx, fi, hdr, ob.iterates)
+                    if late:
+                        ok, why = False, "the validating loop runs after `%s`: it only sees what that assignment kept" % txt(late[0])[:60]
     else:
         bypass = g.path(g.entry, g.exit, avoid_edges=cut)
         ok = bypass is None
@@ -716,8 +752,12 @@ def r154_definite_assignment(ctx, res):
                 def plain_local(a):
                     return isinstance(a, ast.Assign) and all(isinstance(t, ast.Name) for t in a.targets) \
                         and not any(isinstance(z, ast.Call) and not (isinstance(z.func, ast.Name) and z.func.id == "len") for z in ast.walk(a.value))
+                def harmless(a):
+                    # logging / pass / docstring: no effect on the object
+                    return isinstance(a, ast.Pass) or (isinstance(a, ast.Expr) and (isinstance(a.value, ast.Constant) or (
+                        isinstance(a.value, ast.Call) and txt(a.value.func).startswith("get_main_logger()."))))
                 only_arity = not any(isinstance(g.nodes[x].ast, (ast.Assign, ast.AugAssign, ast.Expr)) and not plain_local(g.nodes[x].ast)
-                                     for x in p)
+                                     and not harmless(g.nodes[x].ast) for x in p)
         if only_arity:
             res.ob("R15.4", init.where(), cname + ".__init__", True,
                    "fields %s are assigned on every documented form; an undocumented argument count falls through" % sorted(may),
